@@ -383,6 +383,51 @@ func (p *Prog) ConstCompareSet(info *types.Info, n ast.Node) []string {
 				if depth >= 3 {
 					return true
 				}
+				if f := Callee(info, x); f != nil && f.Pkg() != nil && f.Pkg().Path() == "slices" && f.Name() == "Contains" && len(x.Args) == 2 {
+					// slices.Contains(<constant list>, v): membership in the list's constants
+					var lit *ast.CompositeLit
+					var linfo = info
+					switch a := ast.Unparen(x.Args[0]).(type) {
+					case *ast.CompositeLit:
+						lit = a
+					case *ast.Ident:
+						if v, ok := info.ObjectOf(a).(*types.Var); ok && v.Pkg() != nil && v.Parent() == v.Pkg().Scope() {
+							for _, pk := range p.Pkgs {
+								if pk.Types != v.Pkg() {
+									continue
+								}
+								for _, file := range pk.Syntax {
+									for _, d := range file.Decls {
+										gd, ok := d.(*ast.GenDecl)
+										if !ok || gd.Tok != token.VAR {
+											continue
+										}
+										for _, sp := range gd.Specs {
+											vs := sp.(*ast.ValueSpec)
+											for i, nm := range vs.Names {
+												if pk.TypesInfo.Defs[nm] == types.Object(v) && i < len(vs.Values) {
+													if cl, ok := vs.Values[i].(*ast.CompositeLit); ok {
+														lit, linfo = cl, pk.TypesInfo
+													}
+												}
+											}
+										}
+									}
+								}
+							}
+						}
+					}
+					if lit != nil {
+						for _, el := range lit.Elts {
+							if tv, ok := linfo.Types[el]; ok && tv.Value != nil && tv.Value.Kind() == constant.String {
+								if v := constant.StringVal(tv.Value); v != "" {
+									set[strings.ToUpper(v)] = true
+								}
+							}
+						}
+					}
+					return true
+				}
 				if f := Callee(info, x); f != nil {
 					if d := p.Decls[f]; d != nil && d.Body != nil && len(d.Body.List) == 1 {
 						if ret, ok := d.Body.List[0].(*ast.ReturnStmt); ok && len(ret.Results) == 1 {
